@@ -58,14 +58,26 @@ def _dag(rnd):
         cnt = 1 if k in ('not', 'id') else rnd.randint(2, 3)
         ins = [{'t': rnd.choice(['blk', 'name']), 'x': rnd.randint(lo, idx - 1)} for _ in range(cnt)]
         blocks.append(_c(f'c{j + 1}', k, ins))
-    if ns > 1 and rnd.random() < 0.3:
+    if rnd.random() < 0.35:
+        # a source that is connected to no combinational block and only forwards its value by an
+        # event to another source; toggled many times (the evaluation counter must start from
+        # zero in every round)
+        blocks.append(_s(f'i{len(blocks) + 1}', 0))
+        blocks[-1]['fwd'] = rnd.randint(1, ns)
+        extra = len(blocks)
+    else:
+        extra = None
+    if ns > 1 and rnd.random() < 0.3 and (extra is None or blocks[extra - 1]['fwd'] != 1):
         # an on_output event of a source fails non-fatally (unknown event type): the caller gets
         # the error, the simulation continues and must still settle consistently
         blocks[0]['bad'] = 2
-    order = list(range(1, ns + nc + 1))
+    order = list(range(1, len(blocks) + 1))
     rnd.shuffle(order)
     bursts = [[(rnd.randint(1, ns), 'put', rnd.randint(0, 1)) for _ in range(rnd.choice([1, 2, 3]))]
               for _ in range(rnd.randint(3, 10))]
+    if extra:
+        bursts += [[(extra, 'put', k % 2)] for k in range(rnd.randint(8, 40))]
+        rnd.shuffle(bursts)
     return {'blocks': blocks, 'bursts': bursts, 'order': order}
 
 
